@@ -1,0 +1,16 @@
+//go:build verif
+
+package queryexecutor
+
+import "github.com/ipfs/go-graphsync"
+
+// VerifHook, when set, is called by the worker between the end of a task's execution (its last
+// transaction has been queued) and the FinishTask message to the response manager
+// (verification builds only).
+var VerifHook func(event string, requestID graphsync.RequestID)
+
+func verifAt(event string, requestID graphsync.RequestID) {
+	if VerifHook != nil {
+		VerifHook(event, requestID)
+	}
+}
